@@ -38,7 +38,7 @@ func genCase(t *rapid.T) Case {
 	classes := rapid.SampledFrom([]int{
 		gen.SmallInt, gen.SmallInt, gen.Moderate, gen.Big200, gen.SmallInt | gen.Big200, gen.SmallInt | gen.Moderate | gen.Zeros,
 	}).Draw(t, "classes")
-	o := gen.TreeOpts{Layouts: layouts, Kinds: kinds, Floats: classes, MaxParts: 4, MaxPts: 6, PEmpty: 25}
+	o := gen.TreeOpts{Layouts: layouts, Kinds: kinds, Floats: classes, MaxParts: 4, MaxPts: 6, PEmpty: 25, LongPct: 1, LongMax: 300}
 	g := gen.Tree(t, o)
 	// optional large common offset on X,Y for small shapes
 	if classes == gen.SmallInt && rapid.IntRange(0, 2).Draw(t, "offset") == 0 {
